@@ -174,7 +174,8 @@ def proj_hosted(log):
     out = []
     for seg in segments(log):
         ids = set(plain_ids(seg))
-        out.append({"e": "reset", "ids": sorted(ids)})
+        st = [e for e in seg if e["e"] == "start"]
+        out.append({"e": "reset", "ids": sorted(ids), "lm": mapseq(st[0].get("map", [])) if st else [-1 for _ in KEYS]})
         for e in seg:
             k = e["e"]
             if k == "dlopen":
@@ -550,14 +551,14 @@ def run_e(tier, out, wd, prop="C08"):
     total_rejected = 0
     # ---- join lanes
     jprofiles = [
-        (dict(n=40 * m, maxlen=26, nremotes=2, caps=(64, 4096), vlanes=[], mlanes=[], keys=KEYS, faults=("join",), burst=True), {"dl_retries": 2}),
+        (dict(n=38 * m, maxlen=26, nremotes=2, caps=(64, 4096), vlanes=[], mlanes=[], keys=KEYS, faults=("join",), burst=True), {"dl_retries": 2}),
         (dict(n=20 * m, maxlen=30, nremotes=2, caps=(24, 4096), vlanes=[], mlanes=[], keys=KEYS, faults=("join", "drop"), burst=False), {}),
     ]
     jall = []
     for pi, (p, cfg) in enumerate(jprofiles):
         scripts, r = generate(wd, "envJ%d" % pi, seed + 80 + pi, True, **p)
-        if pi == 1:
-            scripts = scripts + [wrap(s, True) for s in anchors_join()]
+        # (the directed scripts run with both retry settings: how often a refused opening is asked for again)
+        scripts = scripts + [wrap(s, True) for s in anchors_join()]
         c = {"store": False}
         c.update(cfg)
         cases, results = run_group(wd, scripts, c, "runJ%d" % pi)
@@ -586,8 +587,7 @@ def run_e(tier, out, wd, prop="C08"):
     hall = []
     for pi, (p, cfg) in enumerate(hprofiles):
         scripts, r = generate(wd, "envH%d" % pi, seed + 90 + pi, False, **p)
-        if pi == 1:
-            scripts = scripts + [wrap(s, False) for s in anchors_hosted()]
+        scripts = scripts + [wrap(s, False) for s in anchors_hosted()]
         c = {"store": False}
         c.update(cfg)
         cases, results = run_group(wd, scripts, c, "runH%d" % pi)
